@@ -268,6 +268,32 @@ def rule_N8(prog, fixture=False):
                 for (cn, pol) in atoms_of(fact.cond, fact.pol):
                     if any(_is_pow2_fact(cn, pol, t) for t in cands):
                         ok = True
+            if not ok and (f.get("anon_ns") or f.get("static_fn") or f.get("access") == "private"):
+                # an internal helper: the check may stand in front of every call.  n is a parameter or the size of one.
+                pn = None
+                for y in d.walk():
+                    if y.k == "DeclRefExpr" and y.decl and y.decl.get("k") == "parm":
+                        pn = y.decl
+                sites = [(caller, caller.nodes.get(call["node"])) for (caller, call) in prog.callers_of(f.usr) if not caller.file.endswith("coverage.cc")]
+                if pn is not None and sites and all(cn is not None for (_, cn) in sites):
+                    good = 0
+                    for (caller, cn) in sites:
+                        args = cn.call_args()
+                        a = args[pn["pi"]].strip_all() if pn.get("pi") is not None and pn["pi"] < len(args) else None
+                        if a is None:
+                            continue
+                        at = a.text()
+                        texts = {at, "%s.size()" % at}
+                        hit = False
+                        for fact in caller.facts_at(cn):
+                            if fact.belief:
+                                continue
+                            for (c2, p2) in atoms_of(fact.cond, fact.pol):
+                                if any(_is_pow2_fact(c2, p2, t) for t in texts):
+                                    hit = True
+                        good += 1 if hit else 0
+                    if good == len(sites):
+                        ok = True
             if ok:
                 res.add(key, DISCHARGED, where, what, "a live check establishes that %s is a power of two" % nexp.text(), func=f.name, extra=extra)
             elif nexp.k == "MemberExpr" or (nexp.k == "DeclRefExpr" and nexp.decl and nexp.decl.get("k") == "parm" and
